@@ -40,6 +40,8 @@ PROFILES = {
         ('custom-street-lists', 100, 1000, dict(custom=True, stacks='deep'), dict(probe_level=0, illegal=0.0, fold=0.03, discard=0.9)),
         ('full-ring-stud-draw-no-folds', 60, 600, dict(variants=STUD + DRAW, stacks='deep', max_n=8),
          dict(probe_level=0, illegal=0.0, fold=0.0, raise_=0.1, explicit_cards=0.2, discard=0.95)),
+        ('deck-exactly-exhausted', 60, 600, dict(variants=['F2L3D', 'F2L3D', 'FB'], stacks='deep', max_n=6),
+         dict(probe_level=0, illegal=0.0, fold=0.0, raise_=0.05, exhaust=True)),
         ('unknown-cards', 60, 600, dict(variants=['NT', 'PO', 'FT', 'F2L3D', 'FB'], no_autos=('Hole cards showing or mucking',)),
          dict(probe_level=0, illegal=0.0, unknown_cards=0.3, fold=0.3)),
         ('partial-shows-all-in', 100, 1000, dict(variants=FLOP + STUD, mode='C', stacks='short', no_autos=('Hole cards showing or mucking',)),
@@ -49,6 +51,8 @@ PROFILES = {
         ('all-variants-random-automation', 300, 3000, dict(), dict(probe_level=0, illegal=0.1)),
         ('short-stacks-random-automation', 150, 1500, dict(stacks='short', ante_p=0.8), dict(probe_level=0, illegal=0.05, allin=0.2)),
         ('custom-street-lists', 150, 1500, dict(custom=True), dict(probe_level=0, illegal=0.05)),
+        ('deck-exactly-exhausted', 60, 600, dict(variants=['F2L3D', 'F2L3D', 'FB'], stacks='deep', max_n=6),
+         dict(probe_level=0, illegal=0.0, fold=0.0, raise_=0.05, exhaust=True)),
     ],
     'C08': [
         ('all-variants-full-universe', 200, 2000, dict(), dict(probe_level=2, illegal=0.45)),
@@ -59,6 +63,8 @@ PROFILES = {
          dict(probe_level=0, illegal=0.0, fold=0.02, raise_=0.1, discard=0.9)),
         ('custom-street-lists', 220, 2200, dict(custom=True, stacks='deep'),
          dict(probe_level=0, illegal=0.03, fold=0.03, raise_=0.1, discard=0.9, explicit_player=0.6, multi_card=0.5)),
+        ('deck-exactly-exhausted', 60, 600, dict(variants=['F2L3D', 'F2L3D', 'FB'], stacks='deep', max_n=6),
+         dict(probe_level=0, illegal=0.0, fold=0.0, raise_=0.05, exhaust=True)),
     ],
     'C12': [
         ('deep-showdowns', 220, 2200, dict(stacks='deep'), dict(probe_level=0, illegal=0.0, fold=0.03, raise_=0.2, manual_show=0.1)),
@@ -162,6 +168,10 @@ def check_C09(run: Run):
     # custom street lists
     ps = _pairs(run, rng, 80 if q else 800, twins.auto_pair, dict(), pol, spec_fn=games.random_custom_spec)
     twins.validate_pairs(run, ps, 'C09_custom-street-lists', 'C09')
+    # draw games steered so that the deck is exactly empty when the next step is due
+    ps = _pairs(run, rng, 60 if q else 600, twins.auto_pair, dict(variants=['F2L3D', 'F2L3D', 'FB'], stacks='deep', max_n=6),
+                dict(pol, illegal=0.0, fold=0.0, raise_=0.05, exhaust=True))
+    twins.validate_pairs(run, ps, 'C09_deck-exactly-exhausted', 'C09')
     # subset sweep on three families: quick = 96 seeded subsets, thorough = all 2048
     subsets = []
     if q:
